@@ -64,12 +64,19 @@ func HarnessC18DoubleExt() {
 	if vChoice("shorter-sibling", 2) == 1 {
 		vfsWriteFile("templates/layouts/main"+ext, "WRONG[@reserve(\"r\")]")
 	}
+	vfsWriteFile("templates/p"+ext, "P1")
+	vfsWriteFile("templates/p"+ext+ext, "P2")
 	vfsWriteFile("templates/page"+ext, "@use(\"~main"+ext+"\")@insert(\"r\")@component(\"~card"+ext+"\", {t: x})@end")
 	tpl, err := newTemplate("templates", ext)
 	vCover("loaded")
 	vAssert(err == nil && tpl != nil, "tree-with-names-ending-in-the-extension-loads")
 	out, ferr := tpl.String("page", map[string]any{"x": x})
 	vAssert(ferr == nil && vEqStr(out, "L[<"+x+">]"), "layout-and-component-are-found-by-their-full-name")
+	p1, e1 := tpl.String("p", nil)
+	p2, e2 := tpl.String("p"+ext, nil)
+	vAssert(e1 == nil && p1 == "P1" && e2 == nil && p2 == "P2", "a-requested-name-is-taken-as-it-is")
+	_, e3 := tpl.String("page"+ext, nil)
+	vAssert(e3 != nil, "unknown-name-is-not-found")
 }
 
 // HarnessC18NameKernel: nameFromPath on a path with symbolic bytes strips exactly the directory prefix and the
